@@ -155,3 +155,24 @@ package bip39
 //@   ensures [E] ok_closed_form: 2*result == n*(n-1)
 //@   loop 1 invariant ok_inv: 0 <= i && i <= n && 2*s == i*(i-1)
 //@   loop 1 decreases n - i
+
+//@ func etAltFits
+//@   requires n >= 0 && n < 1000
+//@   ensures ok_alt_result: result == 2*n
+//@   loop 1 invariant v: 0 <= i && i <= n && s == i
+//@   alt twice: loop 1 invariant v: 0 <= i && i <= n && s == 2*i
+//@   loop 1 decreases n - i
+
+//@ func etAltNoneFits
+//@   requires n >= 0 && n < 1000
+//@   ensures bad_alt_result: result == 2*n
+//@   loop 1 invariant v: 0 <= i && i <= n && s == i
+//@   alt twice: loop 1 invariant v: 0 <= i && i <= n && s == 2*i
+//@   loop 1 decreases n - i
+
+//@ func etAltTooWeak
+//@   requires n >= 0 && n < 1000
+//@   ensures bad_alt_weak: result == 2*n
+//@   loop 1 invariant v: 0 <= i && i <= n && s == i
+//@   alt weak: loop 1 invariant v: 0 <= i && i <= n && s >= 0
+//@   loop 1 decreases n - i
